@@ -187,7 +187,15 @@ def import_tokens(x):
                 inner.append(ident(s, ctx="prelude", wsmean="mustnot" if i else "free"))
         else:
             f = func(x.get("fn_spelling", {}).get("supports", "supports"), ctx="prelude", ws=True)
-            inner = [ident("display", ctx="prelude"), simple(":", ctx="prelude"), ident("grid", ctx="prelude", ws=True)]
+            sv = x.get("supports_variant", 0)
+            if sv == 1:
+                # a dotted value in the condition is not a class selector
+                inner = [ident("font-family", ctx="prelude"), simple(":", ctx="prelude"), ident("a", ctx="prelude", ws=True), delim(".", ctx="prelude", wsmean="mustnot"), ident("b", ctx="prelude", cls=True, wsmean="mustnot")]
+            elif sv == 2:
+                # `selector(...)` holds a selector: its class names are class selectors
+                inner = [func("selector", ctx="prelude"), delim(".", ctx="sel"), ident("x", ctx="sel", cls=True, wsmean="mustnot"), simple(")", ctx="prelude")]
+            else:
+                inner = [ident("display", ctx="prelude"), simple(":", ctx="prelude"), ident("grid", ctx="prelude", ws=True)]
         close = simple(")", ctx="prelude")
         toks += [f] + inner + [close]
         x["cond_parts"].append((f, inner, close))
@@ -379,7 +387,7 @@ def expected(rules, opts):
         if import_sign is None:
             state["only_imports"] = state["only_imports"]
             for t in x["toks"]:
-                conv(t, out, False)
+                conv(t, out, t.ctx == "sel")
             out.append(E(";", src=x["semi"]))
             return
         if not state["only_imports"]:
@@ -396,7 +404,7 @@ def expected(rules, opts):
             if f.v.lower() == "supports":
                 out.append(E("(", src=f, synth=True))
             for t in inner:
-                conv(t, out, False)
+                conv(t, out, t.ctx == "sel")
             if f.v.lower() == "supports":
                 out.append(E(")", src=f, synth=True))
             out.append(E("{", src=f, synth=True))
